@@ -502,6 +502,15 @@ static int cmd_batch(const Engine *eng) {
       gate = "known";
     } else if (reported < g_opt.max_report) {
       reported++;
+      // (0) engines with a scheduler report the realised schedule: make it explicit in the plan, so that
+      //     the replay file consults no PRNG for scheduling and single switches can be minimised away
+      if (!f.res.sched.empty() || f.res.counters.count("sched.tasks")) {
+        std::vector<std::string> explicit_plan = f.plan;
+        explicit_plan.push_back("replay explicit-schedule");
+        for (auto &l : f.res.sched) explicit_plan.push_back(l);
+        RunResult er = run_one(eng, explicit_plan);
+        if (er.violated() && er.sig() == sig) { f.plan = explicit_plan; f.res.loghash = er.loghash; }
+      }
       // (1) same seed again: class, key and event-log hash must match
       RunResult again = run_one(eng, f.plan);
       if (!again.violated() || again.sig() != sig || again.loghash != f.res.loghash) {
